@@ -1,16 +1,21 @@
 (* Property C16 -- type-context lookups see through aliases and references.
    Compiled on every run against the key tables regenerated from the live module
    (TLRun.GenCtxTables: ids of Python ==/hash classes of the key family, with
-   inspection.unwrap / refs.forwardref / isinstance(_, ForwardRef) read from the import).
+   inspection.unwrap / refs.forwardref / isinstance(_, ForwardRef) / "refs.evaluate(_) is key"
+   read from the import).
    This file contains only the property theorems and their non-vacuity examples.
 
-   Machine:        Model/Ctx.v  run  (dict + __missing__ with its memo write + get)
-   Specification:  Model/Ctx.v  spec_run (inserted pairs only; lookup = key itself, else --
-                   unless the key is a ForwardRef -- its unwrapped form, else forwardref(key))
+   Machine:        Model/Ctx.v  run  (dict + __missing__ with its memo write, its scan over the
+                   stored keys in insertion order + get)
+   Specification:  Model/Ctx.v  spec_run (inserted pairs only, in insertion order; lookup = key
+                   itself, else -- unless the key is a ForwardRef -- its unwrapped form, else a
+                   forward reference naming it: forwardref(key) if stored, else the FIRST stored
+                   reference that evaluates to the key, whatever module it was written in)
    Histories:      ops_ok = insertions use fresh keys; `in` only for stored keys or keys no
                    lookup would find (memoised alias keys are deliberately not observed)
-   Key family:     any, subject to key_laws (visible hypothesis); fuel = bound on nested
-                   __missing__ frames, 2 suffice under key_laws (never ONoFuel). *)
+   Key family:     any, subject to key_laws (visible hypothesis); names r k = "the reference r
+                   evaluates to k"; fuel = bound on nested __missing__ frames, 1 suffices under
+                   key_laws (never ONoFuel). *)
 From Coq Require Import List Arith Bool PeanoNat.
 Import ListNotations.
 Require Import TL.Model.Ctx TL.Model.CtxEq TL.Proofs.CtxLemmas TLRun.GenCtxTables.
@@ -18,61 +23,98 @@ Require Import TL.Model.Ctx TL.Model.CtxEq TL.Proofs.CtxLemmas TLRun.GenCtxTable
 (* For every key family satisfying key_laws and every history allowed by ops_ok (any length),
    the TypeContext machine and the specification produce the same outputs. *)
 Theorem C16_refines : forall (key val : Type) (key_eqb : key -> key -> bool) (is_ref : key -> bool)
-    (unwrap fref : key -> key),
-  key_laws key key_eqb is_ref unwrap fref ->
-  forall (fuel : nat) (ops : list (op key val)), 2 <= fuel ->
-  ops_ok key val key_eqb is_ref unwrap fref [] ops = true ->
-  run key val key_eqb is_ref unwrap fref fuel [] ops = spec_run key val key_eqb is_ref unwrap fref [] ops.
-Proof. intros key val key_eqb is_ref unwrap fref KL fuel ops Hf Hok. exact (refines key val key_eqb is_ref unwrap fref KL fuel ops Hf Hok). Qed.
+    (unwrap fref : key -> key) (names : key -> key -> bool),
+  key_laws key key_eqb is_ref unwrap fref names ->
+  forall (fuel : nat) (ops : list (op key val)), 1 <= fuel ->
+  ops_ok key val key_eqb is_ref unwrap fref names [] ops = true ->
+  run key val key_eqb is_ref unwrap fref names fuel [] ops = spec_run key val key_eqb is_ref unwrap fref names [] ops.
+Proof. intros key val key_eqb is_ref unwrap fref names KL fuel ops Hf Hok. exact (refines key val key_eqb is_ref unwrap fref names KL fuel ops Hf Hok). Qed.
 
-(* After any allowed history: a key stored neither under itself, its unwrapped form nor its
-   forward reference raises KeyError on [], yields the default from get, and is not `in`. *)
+(* After any allowed history: a key stored neither under itself, its unwrapped form, its
+   forward reference nor any stored reference naming it (spec_lookup = None) raises KeyError on [],
+   yields the default from get, and is not `in`. *)
 Theorem C16_keyerror : forall (key val : Type) (key_eqb : key -> key -> bool) (is_ref : key -> bool)
-    (unwrap fref : key -> key),
-  key_laws key key_eqb is_ref unwrap fref ->
-  forall (fuel : nat) (ops : list (op key val)) (k : key) (d : val), 2 <= fuel ->
-  ops_ok key val key_eqb is_ref unwrap fref [] ops = true ->
-  spec_lookup key val key_eqb is_ref unwrap fref (spec_final key val key_eqb is_ref unwrap fref [] ops) k = None ->
-  run key val key_eqb is_ref unwrap fref fuel [] (ops ++ [OItem k; OGet k d; OIn k])
-  = spec_run key val key_eqb is_ref unwrap fref [] ops ++ [OKeyError; OVal d; OBool false].
-Proof. intros key val key_eqb is_ref unwrap fref KL fuel ops k d Hf Hok Hn. exact (keyerror key val key_eqb is_ref unwrap fref KL fuel ops k d Hf Hok Hn). Qed.
+    (unwrap fref : key -> key) (names : key -> key -> bool),
+  key_laws key key_eqb is_ref unwrap fref names ->
+  forall (fuel : nat) (ops : list (op key val)) (k : key) (d : val), 1 <= fuel ->
+  ops_ok key val key_eqb is_ref unwrap fref names [] ops = true ->
+  spec_lookup key val key_eqb is_ref unwrap fref names (spec_final key val key_eqb is_ref unwrap fref names [] ops) k = None ->
+  run key val key_eqb is_ref unwrap fref names fuel [] (ops ++ [OItem k; OGet k d; OIn k])
+  = spec_run key val key_eqb is_ref unwrap fref names [] ops ++ [OKeyError; OVal d; OBool false].
+Proof. intros key val key_eqb is_ref unwrap fref names KL fuel ops k d Hf Hok Hn. exact (keyerror key val key_eqb is_ref unwrap fref names KL fuel ops k d Hf Hok Hn). Qed.
 
 (* A key inserted with value v is found under itself with v by [], get and `in`, whatever
    allowed operations came before and after the insertion. *)
 Theorem C16_stored_found : forall (key val : Type) (key_eqb : key -> key -> bool) (is_ref : key -> bool)
-    (unwrap fref : key -> key),
-  key_laws key key_eqb is_ref unwrap fref ->
+    (unwrap fref : key -> key) (names : key -> key -> bool),
+  key_laws key key_eqb is_ref unwrap fref names ->
   forall (fuel : nat) (ops1 : list (op key val)) (k : key) (v : val) (ops2 : list (op key val)) (d : val),
-  2 <= fuel ->
-  ops_ok key val key_eqb is_ref unwrap fref [] (ops1 ++ OSet k v :: ops2) = true ->
-  run key val key_eqb is_ref unwrap fref fuel [] ((ops1 ++ OSet k v :: ops2) ++ [OItem k; OGet k d; OIn k])
-  = spec_run key val key_eqb is_ref unwrap fref [] (ops1 ++ OSet k v :: ops2) ++ [OVal v; OVal v; OBool true].
-Proof. intros key val key_eqb is_ref unwrap fref KL fuel ops1 k v ops2 d Hf Hok. exact (stored_found key val key_eqb is_ref unwrap fref KL fuel ops1 k v ops2 d Hf Hok). Qed.
+  1 <= fuel ->
+  ops_ok key val key_eqb is_ref unwrap fref names [] (ops1 ++ OSet k v :: ops2) = true ->
+  run key val key_eqb is_ref unwrap fref names fuel [] ((ops1 ++ OSet k v :: ops2) ++ [OItem k; OGet k d; OIn k])
+  = spec_run key val key_eqb is_ref unwrap fref names [] (ops1 ++ OSet k v :: ops2) ++ [OVal v; OVal v; OBool true].
+Proof. intros key val key_eqb is_ref unwrap fref names KL fuel ops1 k v ops2 d Hf Hok. exact (stored_found key val key_eqb is_ref unwrap fref names KL fuel ops1 k v ops2 d Hf Hok). Qed.
 
 (* Inserting a lookup ([] or get) anywhere into an allowed history changes no other output. *)
 Theorem C16_lookup_pure : forall (key val : Type) (key_eqb : key -> key -> bool) (is_ref : key -> bool)
-    (unwrap fref : key -> key),
-  key_laws key key_eqb is_ref unwrap fref ->
+    (unwrap fref : key -> key) (names : key -> key -> bool),
+  key_laws key key_eqb is_ref unwrap fref names ->
   forall (fuel : nat) (ops1 : list (op key val)) (l : op key val) (ops2 : list (op key val)),
-  2 <= fuel -> is_lookup key val l = true ->
-  ops_ok key val key_eqb is_ref unwrap fref [] (ops1 ++ ops2) = true ->
-  exists x, run key val key_eqb is_ref unwrap fref fuel [] (ops1 ++ l :: ops2)
-            = firstn (length ops1) (run key val key_eqb is_ref unwrap fref fuel [] (ops1 ++ ops2)) ++ x ::
-              skipn (length ops1) (run key val key_eqb is_ref unwrap fref fuel [] (ops1 ++ ops2)).
-Proof. intros key val key_eqb is_ref unwrap fref KL fuel ops1 l ops2 Hf Hl Hok. exact (lookup_pure key val key_eqb is_ref unwrap fref KL fuel ops1 l ops2 Hf Hl Hok). Qed.
+  1 <= fuel -> is_lookup key val l = true ->
+  ops_ok key val key_eqb is_ref unwrap fref names [] (ops1 ++ ops2) = true ->
+  exists x, run key val key_eqb is_ref unwrap fref names fuel [] (ops1 ++ l :: ops2)
+            = firstn (length ops1) (run key val key_eqb is_ref unwrap fref names fuel [] (ops1 ++ ops2)) ++ x ::
+              skipn (length ops1) (run key val key_eqb is_ref unwrap fref names fuel [] (ops1 ++ ops2)).
+Proof. intros key val key_eqb is_ref unwrap fref names KL fuel ops1 l ops2 Hf Hl Hok. exact (lookup_pure key val key_eqb is_ref unwrap fref names KL fuel ops1 l ops2 Hf Hl Hok). Qed.
+
+(* "under a forward reference naming it", free of order: for a key k that is not a reference and
+   whose canonical reference names it (fref_names: decided on the live tables below), a lookup finds
+   something exactly when k is stored under itself, under its unwrapped form, or under ANY stored
+   forward reference naming it -- whatever module the reference was written in. *)
+Theorem C16_found_iff_named : forall (key val : Type) (key_eqb : key -> key -> bool) (is_ref : key -> bool)
+    (unwrap fref : key -> key) (names : key -> key -> bool),
+  key_laws key key_eqb is_ref unwrap fref names ->
+  forall (S : st key val) (k : key), is_ref k = false -> fref_names key fref names k ->
+  is_some (spec_lookup key val key_eqb is_ref unwrap fref names S k)
+  = is_some (find key val key_eqb S k) || is_some (find key val key_eqb S (unwrap k))
+    || named_stored key val is_ref names S k.
+Proof. intros key val key_eqb is_ref unwrap fref names KL S k Hr Hn. exact (found_iff key val key_eqb is_ref unwrap fref names KL S k Hr Hn). Qed.
+
+(* WHICH naming reference when several are stored (the statement is silent; this is the code):
+   the one refs.forwardref builds if it is stored, otherwise the one inserted first. *)
+Theorem C16_which_reference : forall (key val : Type) (key_eqb : key -> key -> bool) (is_ref : key -> bool)
+    (unwrap fref : key -> key) (names : key -> key -> bool),
+  forall (S : st key val) (k : key), is_ref k = false ->
+  find key val key_eqb S k = None -> find key val key_eqb S (unwrap k) = None ->
+  spec_lookup key val key_eqb is_ref unwrap fref names S k
+  = orelse (find key val key_eqb S (fref k)) (first_named key val is_ref names S k).
+Proof. intros key val key_eqb is_ref unwrap fref names S k Hr H1 H2. exact (which_ref key val key_eqb is_ref unwrap fref names S k Hr H1 H2). Qed.
+
+(* ... on the machine: two references r1, r2 (r1 names k; neither is k, its unwrapped form or
+   forwardref(k)) inserted in this order: context[k] shows r1's value. *)
+Theorem C16_first_stored_wins : forall (key val : Type) (key_eqb : key -> key -> bool) (is_ref : key -> bool)
+    (unwrap fref : key -> key) (names : key -> key -> bool),
+  key_laws key key_eqb is_ref unwrap fref names ->
+  forall (fuel : nat) (k r1 r2 : key) (v1 v2 : val), 1 <= fuel ->
+  is_ref k = false -> is_ref r1 = true -> is_ref r2 = true -> names r1 k = true ->
+  key_eqb r2 r1 = false -> key_eqb k r1 = false -> key_eqb k r2 = false ->
+  key_eqb (unwrap k) r1 = false -> key_eqb (unwrap k) r2 = false ->
+  key_eqb (fref k) r1 = false -> key_eqb (fref k) r2 = false ->
+  run key val key_eqb is_ref unwrap fref names fuel [] [OSet r1 v1; OSet r2 v2; OItem k] = [OUnit; OUnit; OVal v1].
+Proof. intros key val key_eqb is_ref unwrap fref names KL. exact (first_stored_wins key val key_eqb is_ref unwrap fref names KL). Qed.
 
 (* The hypotheses are satisfiable: the key family of the quantifier, as the live
-   inspection.unwrap / refs.forwardref behave on it on this run, satisfies key_laws. *)
+   inspection.unwrap / refs.forwardref / refs.evaluate behave on it on this run, satisfies key_laws. *)
 Theorem C16_live_tabs_ok : tabs_ok live = true.
 Proof. vm_compute. reflexivity. Qed.
 
-Theorem C16_instance : key_laws nat Nat.eqb (tab_isref live) (tab_unwrap live) (tab_fref live).
+Theorem C16_instance : key_laws nat Nat.eqb (tab_isref live) (tab_unwrap live) (tab_fref live) (tab_names live).
 Proof. exact (tabs_ok_sound live C16_live_tabs_ok). Qed.
 
 (* hence, for the live family, every allowed history of every length *)
-Theorem C16_refines_live : forall (fuel : nat) (ops : list kop), 2 <= fuel ->
+Theorem C16_refines_live : forall (fuel : nat) (ops : list kop), 1 <= fuel ->
   t_ops_ok live ops = true -> t_run live fuel ops = t_spec_run live ops.
-Proof. intros fuel ops Hf Hok. exact (refines nat nat Nat.eqb (tab_isref live) (tab_unwrap live) (tab_fref live) C16_instance fuel ops Hf Hok). Qed.
+Proof. intros fuel ops Hf Hok. exact (refines nat nat Nat.eqb (tab_isref live) (tab_unwrap live) (tab_fref live) (tab_names live) C16_instance fuel ops Hf Hok). Qed.
 
 (* "its unwrapped form (through NewType, TypeAliasType, Final, ClassVar)": for every wrapper of a
    plain class in the catalogue the harness builds -- one and two levels deep: NewType, alias,
@@ -83,9 +125,59 @@ Proof. vm_compute. reflexivity. Qed.
 
 (* hence each of them finds the value stored under the class in a fresh context
    (no earlier lookup that could have memoised an intermediate key) *)
-Theorem C16_wrapper_finds_base : forall (k b v fuel : nat), In (k, b) catalogue -> 2 <= fuel ->
+Theorem C16_wrapper_finds_base : forall (k b v fuel : nat), In (k, b) catalogue -> 1 <= fuel ->
   t_run live fuel [OSet b v; OItem k] = [OUnit; OVal v].
 Proof. intros k b v fuel Hin Hf. exact (reach_found live catalogue C16_live_tabs_ok C16_unwrap_reaches_base k b v fuel Hin Hf). Qed.
+
+(* "a forward reference naming it": for every named key of the family (classes, NewTypes, aliases:
+   the hypothesis fref_names of C16_found_iff_named) the live refs.forwardref builds a reference that
+   the live refs.evaluate sends back to the key *)
+Theorem C16_canonical_ref_names_live : tabs_fref_names live named_keys = true.
+Proof. vm_compute. reflexivity. Qed.
+
+(* the references written in a module that merely imports the name (or under another name bound to
+   the type, or naming a Final[..] key): references, different from forwardref(key) and from the
+   unwrapped form, which the live refs.evaluate sends to the key *)
+Theorem C16_foreign_refs_live : tabs_foreign live foreign_refs = true.
+Proof. vm_compute. reflexivity. Qed.
+
+(* hence each of them, stored alone in a fresh context, is found by a lookup of its type *)
+Theorem C16_foreign_ref_finds_type : forall (r k v fuel : nat), In (r, k) foreign_refs -> 1 <= fuel ->
+  t_run live fuel [OSet r v; OItem k] = [OUnit; OVal v].
+Proof. intros r k v fuel Hin Hf. exact (foreign_found live foreign_refs C16_live_tabs_ok C16_foreign_refs_live r k v fuel Hin Hf). Qed.
+
+(* references that cannot be evaluated (missing name, module never imported, missing attribute)
+   are references and name nothing on the live table *)
+Theorem C16_nameless_refs_live : tabs_nameless live nameless_refs = true.
+Proof. vm_compute. reflexivity. Qed.
+
+Example C16_foreign_nontrivial :
+  length foreign_refs = 18 /\ In (k_XR0, k_B0) foreign_refs /\ In (k_YR1, k_B1) foreign_refs /\
+  In (k_ZR2, k_B2) foreign_refs /\ In (k_XRNT0, k_NT0) foreign_refs /\ In (k_XRSA1, k_SA1) foreign_refs /\
+  In (k_FRFI2, k_FI2) foreign_refs /\ length nameless_refs = 9 /\ length named_keys = 21 /\
+  fref_names nat (tab_fref live) (tab_names live) k_B0 /\
+  (* Final[B]: forwardref gives ForwardRef('Final', module='typing'), which does not name it *)
+  tab_names live (tab_fref live k_FI0) k_FI0 = false.
+Proof. vm_compute. repeat split; tauto. Qed.
+
+(* the routes through the scan, on the live family: a reference through an importing module is
+   found; of two naming references the one inserted first wins, in both orders; the canonical
+   reference wins over an earlier foreign one; references that cannot be evaluated are skipped
+   wherever they stand; the unwrapped form wins over any reference; a scanned hit is not memoised
+   (the canonical reference inserted later takes over); a reference key itself has no fallback;
+   a reference naming the class does not name its NewType *)
+Example C16_scan_routes :
+  t_ops_ok live [OSet k_XR0 10; OItem k_B0; OGet k_B0 7; OSet k_YR0 11; OItem k_B0; OSet k_FR0 12; OItem k_B0;
+                 OItem k_NT0; OSet k_B0 13; OItem k_B0; OItem k_NT0; OItem k_YR0; OItem k_ZR0] = true /\
+  t_run live 1 [OSet k_XR0 10; OItem k_B0; OGet k_B0 7; OSet k_YR0 11; OItem k_B0; OSet k_FR0 12; OItem k_B0;
+                OItem k_NT0; OSet k_B0 13; OItem k_B0; OItem k_NT0; OItem k_YR0; OItem k_ZR0]
+  = [OUnit; OVal 10; OVal 10; OUnit; OVal 10; OUnit; OVal 12; OKeyError; OUnit; OVal 13; OVal 13; OVal 11; OKeyError] /\
+  t_run live 1 [OSet k_YR0 11; OSet k_XR0 10; OItem k_B0] = [OUnit; OUnit; OVal 11] /\
+  t_run live 1 [OSet k_UR0 9; OSet k_UM0 8; OSet k_UA0 6; OItem k_B0; OSet k_ZR0 10; OItem k_B0]
+  = [OUnit; OUnit; OUnit; OKeyError; OUnit; OVal 10] /\
+  t_run live 1 [OSet k_XRNT1 10; OSet k_XR1 11; OItem k_NT1; OItem k_B1; OSet k_XRSA1 12; OItem k_SA1; OSet k_FRFI1 13; OItem k_FI1]
+  = [OUnit; OUnit; OVal 10; OVal 11; OUnit; OVal 12; OUnit; OVal 13].
+Proof. vm_compute. repeat split; reflexivity. Qed.
 
 Example C16_catalogue_nontrivial :
   length catalogue = 33 /\ In (k_NTAN0, k_B0) catalogue /\ In (k_FIN1, k_B1) catalogue /\ In (k_TAN2, k_B2) catalogue.
@@ -123,8 +215,15 @@ Print Assumptions C16_refines.
 Print Assumptions C16_keyerror.
 Print Assumptions C16_stored_found.
 Print Assumptions C16_lookup_pure.
+Print Assumptions C16_found_iff_named.
+Print Assumptions C16_which_reference.
+Print Assumptions C16_first_stored_wins.
 Print Assumptions C16_live_tabs_ok.
 Print Assumptions C16_instance.
 Print Assumptions C16_refines_live.
 Print Assumptions C16_unwrap_reaches_base.
 Print Assumptions C16_wrapper_finds_base.
+Print Assumptions C16_canonical_ref_names_live.
+Print Assumptions C16_foreign_refs_live.
+Print Assumptions C16_foreign_ref_finds_type.
+Print Assumptions C16_nameless_refs_live.
